@@ -13,6 +13,8 @@ Rec == ndJsonDeserialize(IOEnv.TRACE)
 AllDevs == {"yaml_plain_overflowing_number", "toml_nested_three_groups"}
 SplitNames(str) == {SubSeq(str, i, j) : i \in 1..Len(str), j \in 1..Len(str)}
 Devs == IF "XT_DEVS" \in DOMAIN IOEnv THEN AllDevs \cap SplitNames(IOEnv.XT_DEVS) ELSE {}
+\* C08 compares values, not the order of table entries (XT_ORDER=free)
+OrderFree == "XT_ORDER" \in DOMAIN IOEnv /\ IOEnv.XT_ORDER = "free"
 
 \* under the recorded deviation, two arrivals through TOML denote the same value when they agree after
 \* the coded three-group ordering is applied to both (it is idempotent)
@@ -31,9 +33,11 @@ T_Translate ==
          k == <<r.vid, r.from, r.to>>
      IN /\ r.res \in {"ok", "err"}
         /\ want = Refused => r.res = "err"                       \* what TOML cannot hold is refused ..
+        /\ (want = Refused /\ "wrote" \in DOMAIN r) => r.wrote = 0 \* .. and nothing is written for it (C08)
         /\ (want # Refused /\ r.model = "common") => r.res = "ok" \* .. and what both formats can hold translates
         /\ (r.res = "ok" /\ want # Refused) =>
               \/ r.outTree = want                                \* same types, payloads and order
+              \/ (OrderFree /\ EqUnordered(r.outTree, want))     \* C08: the same value, whatever the order of table entries
               \/ (r.class \in Devs /\ PrintT(<<"DEVIATION", r.class, r.vid>>))
               \/ /\ r.to = "toml" /\ "toml_nested_three_groups" \in Devs
                  /\ r.outTree = AsCoded(r.inTree, "root")           \* exactly the recorded deviation, nothing else
